@@ -97,7 +97,7 @@ conf() {
     C11) Q=6    T=150 ;;
     C12) Q=100  T=1200 ;;
     C13) Q=1200 T=12000 ;;
-    C14) Q=12   T=150 ;;
+    C14) Q=20   T=250 ;;
     C15) Q=20   T=300 ;;
     C16) Q=3000 T=60000; NEED=bigint ;;
     C17) Q=300  T=20000;  NEED=maparr ;;
